@@ -34,6 +34,10 @@ CHECKS = {
             "Every code object of the sampled stdlib files and generated programs on each host converts to the host's portable type and back with all attributes, co_lines() and co_positions() equal; replace() leaves the original unchanged.", "7/C16"),
     "C20": ("exploration", "differential runtime monitoring of xdis.std against the host's dis on live objects + cross-host comparison of make_std_api(V) with the native default API",
             "Same-named xdis.std functions return dis's data for the sampled functions/methods/generators/coroutines/code/source strings on each host; CACHE pseudo-instructions and 3.13's label-based is_jump_target on exception-range bounds are documented non-demands.", "7/C20"),
+    "C12": ("exploration", "runtime monitoring of disassemble_file over corpus + fresh files x 6 formats: exception boundary monitor, fd-level stdout/stderr capture, strict listing grammar checked against the Bytecode instruction stream, pydisasm process observer",
+            "Held on the observed files only; the listing oracle is the self-consistency the statement defines (rows = non-CACHE instruction stream, '>>' <=> is_jump_target, line column <=> starts_line for bytecode >= 2.3).", "7/C12"),
+    "C07": ("exploration", "multi-host consensus monitoring: canonical tree / instruction stream / masked listing digests of the same file on six hosts and across loader paths must be identical",
+            "Held on the observed files (corpus + fresh files of every host version) on hosts 3.8-3.13; hosts older than 3.8 cannot import this branch in the sandbox.", "7/C07"),
 }
 
 PENDING = {}
